@@ -378,14 +378,27 @@ def run_asgi(prefix, kind, n_items, raise_at, gate_sends, slow_close, with_disco
             obs["enter"] += 1
             try:
                 for i in range(n_items):
-                    await env.gate(f"p{i}")
+                    if producer == "eager":
+                        # a producer whose next item is always ready (a backlog replayed from memory): it never suspends on its
+                        # own. Count how many of its steps run within one callback of the loop: while they run, nothing else
+                        # (client, ping timer, disconnect watcher) can.
+                        if burst[0] == stepno[0]:
+                            burst[1] += 1
+                        else:
+                            burst[0], burst[1] = stepno[0], 1
+                        obs["max_burst"] = max(obs.get("max_burst", 0), burst[1])
+                        if srv["gone"]:
+                            obs["post_disc_items"].append(i)
+                    else:
+                        await env.gate(f"p{i}")
                     if raise_at == i:
                         raise Boom(i)
                     obs["yielded"].append(i)
                     yield (({} if i == empty_at else {"data": str(i)}) if kind == "sse" else (b"" if i == empty_at else b"%d;" % i))
                 if producer == "idle":
                     await env.gate("zz-idle")  # a producer that has nothing more to say for a long time: never delivered
-                await env.gate("pend")
+                if producer != "eager":
+                    await env.gate("pend")
                 if raise_at == n_items:
                     raise Boom("end")
             finally:
@@ -428,6 +441,7 @@ def run_asgi(prefix, kind, n_items, raise_at, gate_sends, slow_close, with_disco
                 obs["exit"] += 1
 
         srv = {"first": True, "gone": False}
+        stepno, burst = [0], [-1, 0]
 
         async def receive():
             # a server hands out the (empty) request body first, then blocks until the client goes away
@@ -451,7 +465,7 @@ def run_asgi(prefix, kind, n_items, raise_at, gate_sends, slow_close, with_disco
                 nsend[0] += 1
                 await env.gate(f"s{nsend[0]:02d}")
 
-        g = gen() if producer in ("agen", "idle") else AIter()
+        g = gen() if producer in ("agen", "idle", "eager") else AIter()
         resp = AR.SendEventResponse(g, ping_interval=10) if kind == "sse" else AR.StreamResponse(g)
         task = s.loop.create_task(resp({"type": "http", "method": "GET", "headers": []}, receive, send))
         loop = s.loop
@@ -502,6 +516,7 @@ def run_asgi(prefix, kind, n_items, raise_at, gate_sends, slow_close, with_disco
                     obs["post_disc_timers"] += 1
                 loop.fire_timer()
             steps += 1
+            stepno[0] = steps
             if steps > (300 if producer == "idle" else 4000):
                 stuck = "horizon"
                 break
@@ -524,10 +539,10 @@ def run_asgi(prefix, kind, n_items, raise_at, gate_sends, slow_close, with_disco
         obs.update(q)
         try:
             obs["gen_started"] = obs["enter"] > 0
-            obs["gen_state"] = "closed" if producer not in ("agen", "idle") or g.ag_frame is None else ("running" if g.ag_running else "suspended-or-created")
+            obs["gen_state"] = "closed" if producer not in ("agen", "idle", "eager") or g.ag_frame is None else ("running" if g.ag_running else "suspended-or-created")
         except Exception:
             obs["gen_state"] = "?"
-        if producer not in ("agen", "idle"):
+        if producer not in ("agen", "idle", "eager"):
             g.aclose = None  # (break the cycle through the bound method's closure for the collector)
     return Execution(choices, points, obs)
 
@@ -660,7 +675,9 @@ def judge_asgi(o, kind, n_items, raise_at, with_disconnect, slow_close, empty_at
         p.append(f"{o['live_timers']} timer(s) still armed after the call returned")
     if o["loop_errors"]:
         p.append(f"event loop logged {o['loop_errors'][:1]}")
-    if producer != "agen" and not o["enter"]:
+    if producer == "eager" and o.get("max_burst", 0) > 2:
+        p.append(f"producer was stepped {o['max_burst']} times in a row within one callback of the event loop while the server was still writing out an earlier item: a client leaving then is noticed only after {o['max_burst']} producer steps")
+    if producer not in ("agen", "eager") and not o["enter"]:
         if o["cleanup_started"] > 1:
             p.append(f"producer released {o['cleanup_started']} times")
     elif o["enter"] > 1 or o["cleanup_started"] != o["enter"]:
@@ -809,6 +826,9 @@ def asgi_extra_configs(tier):
             out.append(((kind, 1, 0, False, False, False, 1, None), producer, 0))
     for n in (0, 1):
         out.append((("sse", n, None, False, False, True, 1, None), "idle", None))  # a silent producer and a client that leaves
+    for kind in ("stream", "sse"):
+        for disc in (False, True):
+            out.append(((kind, 4, None, True, False, disc, 1, None), "eager", None))  # a producer that never suspends, a server that does
     return out
 
 
